@@ -6,16 +6,18 @@ rows = []
 for f in sorted(glob.glob(os.path.join(ROOT, "seeded", "*", "meta.json"))):
     d = json.load(open(f))
     am = d.get("agent_meta") if isinstance(d.get("agent_meta"), dict) else {}
-    summ = (am.get("summary") or "")[:160].replace("|", "/").replace("\n", " ")
-    needs = (am.get("needs_to_manifest") or "")[:140].replace("|", "/").replace("\n", " ")
+    summ = (am.get("summary") or "")[:170].replace("|", "/").replace("\n", " ")
     sigs = []
     for p, r in d.get("checks", {}).items():
         for l in r.get("lines", []):
             if "signature:" in l:
                 sigs.append(p + ": " + l.split("signature:")[1].split("(")[0].strip())
     caught = ", ".join(d.get("caught_by", [])) or "**missed**"
-    note = d.get("note", "")
-    rows.append("| %s | %s | %s | %s | %s | %s |" % (d["name"], d["property"], summ, needs, caught + (" — " + note if note else ""), "; ".join(sigs[:3]).replace("|", "/")))
-print("| seeded change | property | change | needs to manifest | caught by | violated clauses (signatures) |")
-print("|---|---|---|---|---|---|")
+    hist = d.get("history") or []
+    first = hist[0].get("caught_by") if hist else d.get("caught_by", [])
+    first_s = (", ".join(first) if first else "**missed**")
+    tests = "yes" if d.get("repo_tests_pass") else ("?" if "repo_tests_pass" not in d else "no")
+    rows.append("| %s | %s | %s | %s | %s | %s | %s |" % (d["name"], d["property"], summ, tests, first_s, caught if hist else "-", "; ".join(sigs[:2]).replace("|", "/")))
+print("| seeded change | property | the change (engineer's summary, truncated) | repo tests pass with it | first version of the check(s) | after strengthening | violated clauses (signatures) |")
+print("|---|---|---|---|---|---|---|")
 print("\n".join(rows))
